@@ -155,3 +155,21 @@ PROPS['C10'] = dict(
     explanation='E1: the main loop of fit(): for an arbitrary input line -- end of input (< 3 columns) stops; a source with n_data >= n_data_min is fitted (that source, the fitter settings), '
                 'stripped of predicted fluxes unless requested, cut by the output selector and written exactly once; any other source writes nothing; malformed lines are errors. FitInfoFile: '
                 'one frame per record, metadata once, in-memory results are yielded as copies (the objects of the caller are never handed to consumers). E2: real files, three input forms, call sequences.')
+
+CUBEN = 'sedfitter.sed.cube.'
+D_FITS = ('dep: astropy.io.fits (contracts/fitsmodel.py): what an HDU was written with is what .data / .header / .columns[i].unit give back; the stored unit string denotes the unit '
+          '(parse_unit_safe assumed; see known_findings 4920375 for the natively found defect there)')
+PROPS['C12'] = dict(
+    level='other',
+    e1=[SEDC + 'read', CUBEN + 'BaseCube.read', CUBEN + 'SEDCube.get_sed'],
+    e2=('rtc.io_props', 'run_c12'),
+    assumptions=COMMON + [D_FITS, 'A-UNIT: unit model of sedvc/units.py', 'SED.write / SEDCube.write (astropy Table sorting and FITS serialisation) and the consumers of the order '
+                          '(Filter.rebin, convolve_model_dir) are decided by the bounded run; Filter.rebin accepting either storage order is proved under C06'],
+    explanation='E1: SED.read (4 unit/order variants): for either stored order and either requested order, wavelengths, frequencies, fluxes and errors come back as stored or reversed '
+                'TOGETHER, each cell converted with the frequency of that cell, and the requested order holds. SEDCube.read (with/without uncertainties and apertures): the same for '
+                'wavelengths, values and uncertainties on the third axis; names/apertures untouched. SEDCube.get_sed: the SED of the first row with that name, cell for cell. '
+                'E2: write/read round trips in both orders, cube vs per-file, native.')
+PROPS['C15']['e1'] = PROPS['C15']['e1'] + [SEDC + 'read']
+PROPS['C15']['assumptions'] = COMMON + ['A-UNIT: unit model of sedvc/units.py', D_FITS]
+PROPS['C15']['explanation'] = PROPS['C15']['explanation'].replace('E2: the same', 'SED.read: every cell is converted with the frequency of that very cell whichever way the axis is '
+                                                                  'flipped (4 variants). E2: the same')
